@@ -45,6 +45,10 @@ EXTRA.update({
  "C13-r8gcm2": ["C13", "C04"], "C09-r8gdm1": ["C09"], "C16-r8gdm2": ["C16"], "C07-r8gem1": ["C07"], "C17-r8gem2": ["C17", "C04"],
  "C01-r8gfm1": ["C01", "C02"], "C12-r8gfm2": ["C12"],
 })
+EXTRA.update({
+ "C13-r9gam1": ["C13", "C05"], "C07-r9gam2": ["C07"], "C08-r9gbm1": ["C08"], "C14-r9gbm2": ["C14"], "C03-r9gcm1": ["C03", "C04"], "C10-r9gcm2": ["C10", "C09"],
+ "C04-r9gdm1": ["C04", "C03", "C09"], "C12-r9gdm2": ["C12"], "C15-r9gem1": ["C15", "C05"], "C09-r9gem2": ["C09", "C04", "C03"], "C17-r9gfm1": ["C17"], "C17-r9gfm2": ["C17"],
+})
 PREFIX_PROP = {"d8b687c": ["C06"], "da7613f": ["C16"], "64a92d9": ["C02"], "2c87331": ["C13", "C02", "C12"], "06fc22c": ["C05", "C11"],
                "85dc330": ["C05", "C11"], "4c427cc": ["C13"], "a8065bf": ["C13"], "a4e97cf": ["C11"], "2aa0389": ["C04"],
                "9db7846": ["C17"], "23f20cf": ["C17"], "b18464c": ["C07"], "d06cb78": ["C10"], "796c1d9": ["C01", "C11"], "e184993": ["C10"]}
